@@ -934,6 +934,31 @@ func corpus() []Case {
 			Op{Op: "discover", Mod: 0}, Op{Op: "discover", Mod: 1})
 		add(Case{Family: fmt.Sprintf("chain-%d", k), Top: "chain", Mods: chainMods(), Ops: ops})
 	}
+	// TypeSet members under a dependency loader and a single module loader: the TypeSet is resolved WHILE one of its
+	// members is being looked up (member first), before (type set first), or through aliases that refer to members
+	// from the TypeSet's own module and from another module - with a reference cycle between the two modules
+	// (Shp::Uses -> Other::Thing -> Shp::Square / Shp::Uses); every order through the loader and two child contexts
+	memberMods := func() []ModSpec {
+		return []ModSpec{
+			{Dir: "shp", Name: "shp", Files: []FileSpec{tsFile("types/init_typeset.pp", "Shp", 10, "Circle", "Square", "Tri"),
+				good("types/uses.pp", "Shp::Uses", 20, "Shp::Circle", "Other::Thing")}},
+			{Dir: "other", Name: "other", Files: []FileSpec{good("types/thing.pp", "Other::Thing", 30, "Shp::Square", "Shp::Uses"),
+				tsFile("types/set.pp", "Other::Set", 40, "One"), good("types/viaset.pp", "Other::Viaset", 50, "Other::Set::One", "Shp::Tri")}}}
+	}
+	for k, names := range [][]string{
+		{"Shp::Circle", "Shp::Square", "Shp", "Shp::Tri", "shp::circle"},
+		{"Shp", "Shp::Circle", "Shp::Square", "Shp::Nope"},
+		{"Shp::Uses", "Shp::Circle", "Shp::Square", "Other::Thing", "Shp::Tri"},
+		{"Other::Thing", "Shp::Square", "Shp::Uses", "Shp::Circle", "Shp"},
+		{"Other::Viaset", "Other::Set::One", "Shp::Tri", "Other::Set", "Shp::Circle", "OTHER::SET::ONE"},
+		{"Other::Set::One", "Other::Set", "Other::Viaset", "Other::Set::Two"}} {
+		ops := append(loads(-1, names...), loads(0, names...)...)
+		ops = append(ops, loads(1, names...)...)
+		add(Case{Family: fmt.Sprintf("member-dep-%d", k), Top: "dep", Mods: memberMods(), Ops: ops})
+		if k < 3 {
+			add(Case{Family: fmt.Sprintf("member-single-%d", k), Top: "single", Mods: memberMods()[:1], Ops: ops})
+		}
+	}
 	// three loaders in a chain, the TypeSet in the middle one, bad files above and below
 	add(Case{Family: "chain-3", Top: "chain", Mods: []ModSpec{
 		{Dir: "mymod", Name: "mymod", Files: []FileSpec{good("types/foo.pp", "Mymod::Foo", 10, "Other::Set::One", "Top"), good("types/wrong.pp", "Mymod::Other", 20)}},
